@@ -9,6 +9,8 @@ import Juniper.Driver.C06
 import Juniper.Driver.C11
 import Juniper.Driver.C16
 import Juniper.Driver.C18
+import Juniper.Driver.C17
+import Juniper.Driver.C20
 /-! `driver <model>`: runs one executable model behind the line protocol. Core-only (no Mathlib).
 Registration: one `import` line above and one `[("name", handler)],` line below per model
 (this file is merged with git's union driver, so keep one entry per line). -/
@@ -25,6 +27,8 @@ def handlers : List (String × Handler) := List.flatten [
   [("batch", Juniper.Driver.C11.handler)],
   [("cond", Juniper.Driver.C16.handler)],
   [("tmap", Juniper.Driver.C18.mapHandler), ("watch", Juniper.Driver.C18.watchHandler), ("future", Juniper.Driver.C18.futHandler), ("lazy", Juniper.Driver.C18.lazyHandler)],
+  [("group", Juniper.Driver.C17.handler)],
+  [("xtime", Juniper.Driver.C20.handler)],
   []]
 
 def main (args : List String) : IO UInt32 := do
